@@ -214,7 +214,7 @@ class CylindricalSandwich(ExactSolver):
                     # Anm = CylindricalSandwich.Anm_analytic(self, self.a, self.b, k, m, alphanm, betanm)
                     Tnm = (4 * self.T1 / np.pi) * ((-1)**(k/2) / float(k)) * (1 / Anm) * \
                         quad(dTinRun, self.a, self.b, args=(k, m, alphanm, betanm))[0]
-                    tmp = Tnm * Rnm * np.sin(k * theta) * np.exp(-self.kappa * alphanm * t)  # combine Tnm and tmp
+                    tmp = Tnm * Rnm * np.sin(k * theta) * np.exp(-self.kappa * alphanm**2 * t)  # combine Tnm and tmp
                     temperature += tmp  # this line is throwing a waring during the unit test
 
         # add homogeneous and nonhomogeneous
